@@ -110,7 +110,7 @@ fn c15_q_animation_direction() {
 #[kani::stub(alloc::fmt::format, crate::vklib::empty_format)]
 #[kani::stub(std::hash::RandomState::new, crate::vklib::fixed_random_state)]
 #[kani::stub(crate::reader::AseReader::unzip, crate::vklib::stub_unzip_identity)]
-fn c15_q_tileset_without_embedded_pixels() {
+fn c15_t_tileset_without_embedded_pixels() {
     let mut buf: [u8; 42] = kani::any();
     let linked: bool = kani::any();
     buf[0] = 5; // tileset id concrete (hash-map key)
